@@ -165,6 +165,7 @@ class FeatureEdgeDetector(Worker):
     def _flag_corners(self, mesh : SurfaceMesh):
         if mesh.vertices.has_attribute("corners"):
             self.corners = mesh.vertices.get_attribute("corners")
+            self.corners.clear()
         else:
             self.corners = mesh.vertices.create_attribute("corners", int)
         angles = corner_angles(mesh, persistent=False)
